@@ -273,7 +273,10 @@ class CSSImportRule(cssrule.CSSRule):
         doc="(DOM) The parsable textual representation of this rule.",
     )
 
-    def _setHref(self, href):
+    def _setHref(self, href, _load=False):
+        if not _load:
+            # (_load: the sheet the rule was inserted in loads the same href)
+            self._checkReadonly()
         # set new href
         self._href = href
         # update seq
